@@ -449,6 +449,28 @@ func runC05(c *Ctx) {
 		}
 	}
 
+	// every acquisition of the queue mutex is released on every path (directly or by a deferred Unlock): a function that
+	// returns with the mutex held blocks the next Post for ever
+	for _, fn := range internalFuncs {
+		var locks []ssa.Instruction
+		deferred := false
+		eachInstr(fn, func(in ssa.Instruction) {
+			if onLck(in, lockM) {
+				locks = append(locks, in)
+			}
+			if d, ok := in.(*ssa.Defer); ok && isCallTo(d, unlockM) {
+				deferred = true
+			}
+		})
+		for _, lk := range locks {
+			okp, why := deferred, ""
+			if !okp {
+				okp, why = mustPass(lk, func(x ssa.Instruction) bool { return onLck(x, unlockM) })
+			}
+			c.check(okp, fn, "lock released", lk.Pos(), "every path from Lock reaches Unlock", "the queue mutex is taken and not released on every path ("+why+"): the next Post or dispatch blocks for ever")
+		}
+	}
+
 	// ------------------------------------------------------------------------------------------------ R5
 	c.rule("C05-R5", "thread affinity: handlers run only from the poll loop; AsyncHandshake touches the stream only through Post", 4)
 	pollFn := p.Method("internal", "poller", "Poll")
